@@ -148,7 +148,11 @@ func interopSuite() Suite {
 			g.alwaysSync = true
 			ops := g.History(4 + r.Intn(8))
 			ops = append(ops, Op{"sync", true}, Op{"gwmeta", true})
-			ops = append(ops, gwFetchOps(r, g.lay, g.now, 8)...)
+			if !g.recreated {
+				// (after a re-creation in place the archives hold leftovers of the old file: the
+				// reference reader's view of such slots is not what C06 is about)
+				ops = append(ops, gwFetchOps(r, g.lay, g.now, 8)...)
+			}
 			return ops
 		},
 		Cases: func(tier string) int {
